@@ -61,7 +61,7 @@ def starts(*prefixes):
     return lambda k, m: k.startswith(prefixes)
 
 
-SMALL = dict(seeds=16, groups=None, crash_points=32, switch_points=24)
+SMALL = dict(seeds=16, groups=None, crash_points=32, switch_points=16)
 
 PROPERTIES = {
     "C01": dict(
@@ -102,7 +102,7 @@ PROPERTIES = {
     ),
     "C07": dict(
         title="gradient and JVP programs of every stepper class",
-        select=lambda k, m: cls(k) is not None and form(k) in ("grad", "jvp"),
+        select=lambda k, m: (cls(k) is not None and form(k) in ("grad", "jvp")) or k.startswith(("shared-fn:rollout-jvp", "shared-fn:rollout-grad", "shared-fn:rollout[")),
         quick=dict(seeds=20, groups=36),
         thorough=dict(seeds=400, groups=None),
     ),
@@ -128,7 +128,7 @@ PROPERTIES = {
         title="rollout / repeat / stack_sub_trajectories / RepeatedStepper / ForcedStepper / build_ic_set",
         select=lambda k, m: form(k) in (
             "rollout", "repeated", "forced", "repeat", "rollout-aux", "stack_sub_trajectories", "build_ic_set", "build_ic_set/GRF",
-            "rollout-n", "repeated-n", "shared-repeated", "shared-forced", "forced-step",
+            "rollout-n", "repeated-n", "shared-repeated", "shared-forced", "forced-step", "shared-fn",
         ),  # fmt: skip
         quick=dict(seeds=24, groups=36),
         thorough=dict(seeds=400, groups=None),
@@ -214,8 +214,9 @@ def main():
         replay_dir=os.path.join(VERIF, "replays"), label=prop, run_wall_cap=600.0, worker_timeout=2400.0,
         min_budget=40, plans_per_worker=3 if args.tier == "quick" else 6,
         crash_points=tier_cfg.get("crash_points", 48 if args.tier == "quick" else None),
-        switch_points=tier_cfg.get("switch_points", 32 if args.tier == "quick" else None),
-        switch_cap=400 if args.tier == "quick" else 6000,
+        switch_points=tier_cfg.get("switch_points", 24 if args.tier == "quick" else None),
+        switch_cap=240 if args.tier == "quick" else 6000,
+        focus_cap=96 if args.tier == "quick" else 400,
     )  # fmt: skip
     try:
         if args.replay:
